@@ -24,6 +24,8 @@ pub struct ChunkBuild {
     pub names: Vec<FuncNames>,
     /// per function: level-2 check generated for (argument, result)
     pub level2: Vec<(bool, bool)>,
+    /// per function: export-side argument type that owns heap data but has no free helper
+    pub free_missing: Vec<Option<String>>,
     pub label: String,
 }
 
@@ -673,6 +675,14 @@ fn check_tables(build: &ChunkBuild, loaded: &Loaded, enc: Enc) -> (BTreeMap<usiz
                     });
                 }
             }
+        }
+        if let Some(Some(t)) = build.free_missing.get(k) {
+            problems.push(Problem {
+                func: k,
+                case: 0,
+                class: "own:free-helper:missing".into(),
+                msg: format!("the header declares no `*_free` helper for `{t}`, the export's argument type, although a value of this type owns heap data (the README promises one for every type that requires allocation)"),
+            });
         }
         if let Some((_, sig)) = loaded.exports.get(&n.export) {
             let got = normalise_c_sig(sig);
